@@ -351,7 +351,7 @@ func c07BinTokens() [][]byte {
 	ts(append(append([]byte{}, y...), 0x81, 0x81, 0x80)...)                         // hour without minute
 	ts(append(append([]byte{}, y...), 0x81, 0x81, 0x80, 0x80, 0x80, 0x80, 0x01)...) // fraction 1d0 >= 1
 	ts(append(append([]byte{}, y...), 0x81, 0x81, 0x80, 0x80, 0x80, 0xC1, 0x81)...) // fraction -1d-1
-	ts(0x80) // year 0
+	ts(0x80)                                                                        // year 0
 	// fractions of one second or more with more than nine digits (year 1, so
 	// that the body stays within 13 bytes)
 	ts(0x81, 0x81, 0x81, 0x80, 0x80, 0x80, 0xCA, 0x02, 0xDF, 0xDC, 0x1C, 0x35) // 12345678901 d-10
